@@ -29,8 +29,8 @@ def event_tables(ctx):
         (t, is_static) = dec[0]
         hint = pmatch("_split_hint(Q_h)", t[1])["h"]
         apps = [e for e in ex.of(Effect) if pmatch("Q_l.append(Q_x)", e.call) is not None and loops(e)]
-        stores = {tstr(s.target): s for s in ex.of(Store) if not loops(s)}
-        tbl_dyn, tbl_sta = stores.get("dcls._dynamic_fields"), stores.get("dcls._static_fields")
+        stores = {s.target[2]: s for s in ex.of(Store) if not loops(s) and s.target[0] == "a"}
+        tbl_dyn, tbl_sta = stores.get("_dynamic_fields"), stores.get("_static_fields")
         if len(apps) != 1 or tbl_dyn is None or tbl_sta is None:
             ok = False
             detail.append(f"static={is_static}: {len(apps)} append(s)")
@@ -43,7 +43,7 @@ def event_tables(ctx):
         good = (pmatch("Q_l.append(Q_x)", e.call)["x"] == ("a", f, "name") and pmatch("fields(Q_d)", loops(e)[0][1]) is not None and hint == ("i", pmatch("_split_hint(Q_h)", t[1])["h"][1], ("a", f, "name"))
                 and target.value == ("call", ("n", "tuple"), (lst,), ()) and other.value != target.value)
         ft = [s for s in ex.of(Store) if loops(s) and s.target[0] == "i" and s.target[2] == ("a", f, "name")]
-        good = good and len(ft) == 1 and ft[0].value == ("i", t[1], ("c", 1)) and stores.get("dcls._field_types") is not None and stores["dcls._field_types"].value == ft[0].target[1]
+        good = good and len(ft) == 1 and ft[0].value == ("i", t[1], ("c", 1)) and stores.get("_field_types") is not None and stores["_field_types"].value == ft[0].target[1]
         seen[is_static] = seen[is_static] or good
         ok = ok and good
         detail.append(f"static={is_static}: {tstr(e.call)} -> {tstr(target.target)} = {tstr(target.value)}")
